@@ -176,9 +176,15 @@ def gen_spec(rng, thorough, idkeyed=0.2):
 
 # --------------------------------------------------------------------------- building the real repository
 
-def node_path(nd, ns=True):
+def node_path(nd, ns=True, rng=None):
+    """path of a node; with `rng`: the namespace is written in another lexical case in 35 % of the calls
+    (namespace names are case-insensitive: reference values of write requests must be accepted and
+    treated alike however they spell it)"""
     import pywbem
-    return pywbem.CIMInstanceName(nd[1], keybindings={'id': nd[2]}, namespace=nd[0] if ns else None)
+    n = nd[0] if ns else None
+    if n is not None and rng is not None and rng.random() < 0.35:
+        n = recase(n, rng)
+    return pywbem.CIMInstanceName(nd[1], keybindings={'id': nd[2]}, namespace=n)
 
 
 def build(spec):
@@ -1055,7 +1061,8 @@ def gen_history_spec(rng, thorough):
                                                  re-point non-key ends; mode 'pl' = only these properties + PropertyList,
                                                  'partial' = only these properties, no PropertyList, 'full' = all properties
       ['del_link', k]                            DeleteInstance of the k-th association instance created by the history
-      ['del_class', name]                        DeleteClass of a class added by the history (with its instances)"""
+      ['del_class', name, ns|None]               DeleteClass of an association class (with subclasses and instances) in one
+                                                 namespace or (None) in all"""
     for _ in range(50):
         spec = gen_spec(rng, thorough, idkeyed=0.5)
         if 3 <= len(spec['nodes']) <= 10 and 2 <= len(spec['links']) <= 12:
@@ -1132,13 +1139,21 @@ def gen_history_spec(rng, thorough):
                 ends.update(change)
         if nlinks and rng.random() < 0.4:
             steps.append(['del_link', rng.randrange(nlinks)])
-        if new_assoc and rng.random() < 0.15:
-            leaf = [n for n in new_assoc if not any(b[1] and b[1].lower() == n.lower() for b in assocs)]
-            if leaf:
-                victim = rng.choice(leaf)
-                steps.append(['del_class', victim])
-                new_assoc.remove(victim)
-                assocs[:] = [b for b in assocs if b[0] != victim]
+        if len(assocs) > 1 and rng.random() < 0.3:
+            victim = rng.choice(assocs)[0]
+            gone = [victim.lower()]
+            changed = True
+            while changed:                      # the subtree goes with it
+                changed = False
+                for b in assocs:
+                    if b[1] and b[1].lower() in gone and b[0].lower() not in gone:
+                        gone.append(b[0].lower())
+                        changed = True
+            if len(gone) < len(assocs):
+                # DeleteClass in ONE namespace (its cross-namespace instances must disappear everywhere) or in all
+                steps.append(['del_class', victim, rng.choice(spec['nss']) if rng.random() < 0.7 else None])
+                new_assoc[:] = [n for n in new_assoc if n.lower() not in gone]
+                assocs[:] = [b for b in assocs if b[0].lower() not in gone]
         history.append(steps)
     spec['history'] = history
     return spec
@@ -1184,8 +1199,9 @@ def apply_step(conn, spec, state, st, count):
         elif kind == 'link':
             _, cls, ns, ends = st
             refs = assoc_refs(state.assocs, cls)
-            props = [pywbem.CIMProperty(role, node_path(state.nodes[ends[role]]), type='reference', reference_class=rc)
-                     for role, rc, iskey in refs]
+            lr = random.Random(len(state.link_paths) * 7 + 1)
+            props = [pywbem.CIMProperty(role, node_path(state.nodes[ends[role]], rng=lr), type='reference',
+                                        reference_class=rc) for role, rc, iskey in refs]
             if id_keyed(refs):
                 props.append(pywbem.CIMProperty('InstanceID', 'h%d' % len(state.link_paths)))
             state.link_paths.append(None)
@@ -1207,7 +1223,8 @@ def apply_step(conn, spec, state, st, count):
                 for i in ends.values():
                     if i is not None and state.nodes[i] not in state.new_nodes:
                         state.new_nodes.append(state.nodes[i])
-                newprops = [pywbem.CIMProperty(role, node_path(state.nodes[i]), type='reference',
+                lr = random.Random(k * 13 + len(change) + 5)
+                newprops = [pywbem.CIMProperty(role, node_path(state.nodes[i], rng=lr), type='reference',
                                                reference_class=rcs[role]) for role, i in change.items()]
                 if mode == 'full':
                     inst = conn.GetInstance(p)
@@ -1235,10 +1252,24 @@ def apply_step(conn, spec, state, st, count):
                 state.link_paths[st[1]] = None
                 count('history:del_link')
         elif kind == 'del_class':
-            for ns in spec['nss']:
+            gone = [st[1].lower()]
+            changed = True
+            while changed:
+                changed = False
+                for b in state.assocs:
+                    if b[1] and b[1].lower() in gone and b[0].lower() not in gone:
+                        gone.append(b[0].lower())
+                        changed = True
+            # the ends of the instances that (should) disappear are sources of the next query phase
+            for info in state.link_info:
+                if info[0].lower() in gone:
+                    for i in info[2].values():
+                        if i is not None and state.nodes[i] not in state.new_nodes:
+                            state.new_nodes.append(state.nodes[i])
+            state.assocs[:] = [b for b in state.assocs if b[0].lower() not in gone]
+            for ns in ([st[2]] if len(st) > 2 and st[2] else spec['nss']):
                 conn.DeleteClass(st[1], namespace=ns)
-            state.assocs[:] = [b for b in state.assocs if b[0] != st[1]]
-            count('history:del_class')
+            count('history:del_class:%s' % ('one_namespace' if len(st) > 2 and st[2] else 'all'))
     except Exception as e:  # noqa   (the step itself is not judged here: C10/C11/C12; a corrupted store shows in the queries)
         count('history:step_failed:%s:%s' % (kind, type(e).__name__))
 
@@ -1549,17 +1580,21 @@ def gen_write_spec(rng):
             ops.append(['modify', via, k, change, rng.choice(['pl', 'partial', 'full'])])
             if all(isinstance(v, int) for v in change.values()):
                 ends.update(change)                          # what it should be if accepted (bookkeeping only)
-        else:
+        elif r < 0.93:
             k = rng.randrange(len(created))
             ops.append(['delete', rng.choice(nss), k])
+        else:
+            cls = rng.choice(assocs)[0]
+            ops.append(['delclass', rng.choice(nss), cls if rng.random() < 0.8 else recase(cls, rng)])
     return {'assocs': assocs, 'nss': nss, 'nodes': nodes, 'ops': ops}
 
 
 def store_contents(conn, keys):
-    """per namespace: sorted list of (path normal form, class, [(role, end normal form|None)…])"""
+    """per namespace: sorted list of (path normal form, class, [(role, end normal form|None)…]) + the class names"""
     out = {}
     for ns in conn.namespaces:
-        rows = []
+        rows = [['classes'] + sorted(c.classname.lower() for c in
+                                     conn.cimrepository.get_class_store(ns).iter_values(copy=False))]
         for i in conn.cimrepository.get_instance_store(ns).iter_values(copy=False):
             refs = sorted((p.name.lower(), str(canon_p(pj(p.value, keys))) if p.value is not None else None)
                           for p in i.properties.values() if p.type == 'reference')
@@ -1571,7 +1606,7 @@ def store_contents(conn, keys):
 def model_contents(repo):
     out = {}
     for r in repo:
-        rows = []
+        rows = [['classes'] + sorted(c.lower() for c in r.get('classes', []))]
         for i in r.get('insts', []):
             refs = sorted((n.lower(), str(canon_p(v)) if v is not None else None) for n, v in i['refs'])
             rows.append([str(canon_p(i['path'])), i['cls'].lower(), [list(x) for x in refs]])
@@ -1590,13 +1625,14 @@ def run_write(spec):
     line = {'host': conn.host, 'repo': dump_repo(conn, keys), 'reqs': []}
     outs, viol = [], []
     paths = []                       # per created index: the path (without namespace) the instance has / would have
+    vrng = random.Random(len(spec['ops']) * 31 + len(spec['nodes']))     # spelling of namespaces in reference values
 
     def ref_val(tgt):
         if tgt is None:
             return None
         if tgt == 'missing':
             return pywbem.CIMInstanceName('C13_Node', keybindings={'id': 'missing'}, namespace=spec['nss'][0])
-        return node_path(spec['nodes'][tgt])
+        return node_path(spec['nodes'][tgt], rng=vrng)
 
     def mprops(props):
         return [{'name': p.name, 'ref': p.type == 'reference', 'v': pj(p.value, keys) if p.type == 'reference' else None}
@@ -1648,6 +1684,10 @@ def run_write(spec):
                         conn.ModifyInstance(inst, PropertyList=[np_.name for np_ in newprops])
                     else:
                         conn.ModifyInstance(inst)
+            elif op[0] == 'delclass':
+                _, ns, cls = op
+                line['reqs'].append({'op': 'delclass', 'ns': ns, 'cls': cls})
+                conn.DeleteClass(cls, namespace=ns)
             else:
                 _, via, k = op
                 p = paths[k].copy()
